@@ -759,7 +759,7 @@ Definition next_bound (c : config) (now : N) : N := (now + cfg_grid c + cfg_time
 Lemma fire_next_facts : forall c s now s1, fire_next c s now = Some s1 ->
   weight c (hs s1) <= weight c (hs s) /\
   (Sync (hs s) -> weight c (hs s1) < weight c (hs s)) /\
-  (dl_below (next_bound c now) (hs s) -> dl_below (next_bound c now) (hs s1)) /\
+  (forall B, (next_bound c now <= B)%N -> dl_below B (hs s) -> dl_below B (hs s1)) /\
   (forall y, elive y s1 = elive y s).
 Proof.
   intros c s now s1 H. apply fire_next_some in H.
@@ -767,16 +767,16 @@ Proof.
   - destruct (fire_req_group_facts c s d now) as (A1 & A2 & A3).
     split; [exact A1|split; [|split; [|exact A3]]].
     + intros S. eapply fire_req_group_strict; eauto.
-    + intros D. apply A2; [exact D|]. pose proof (fire_time_le c d now L). unfold next_bound. lia.
+    + intros B LB D. apply A2; [exact D|]. pose proof (fire_time_le c d now L). unfold next_bound in LB. lia.
   - destruct (fire_challenge_facts c s na (fire_time c d now)) as (A1 & A2 & A3 & A4).
     split; [exact A1|split; [|split; [|exact A4]]].
     + intros _. eapply A2; eauto.
-    + intros D. apply A3; [exact D|]. pose proof (fire_time_le c d now L). unfold next_bound. lia.
+    + intros B LB D. apply A3; [exact D|]. pose proof (fire_time_le c d now L). unfold next_bound in LB. lia.
 Qed.
 
 Lemma fire_due_facts : forall c now fuel s,
   weight c (hs (fire_due c s now fuel)) <= weight c (hs s) /\
-  (dl_below (next_bound c now) (hs s) -> dl_below (next_bound c now) (hs (fire_due c s now fuel))) /\
+  (forall B, (next_bound c now <= B)%N -> dl_below B (hs s) -> dl_below B (hs (fire_due c s now fuel))) /\
   (forall y, elive y (fire_due c s now fuel) = elive y s).
 Proof.
   intros c now. induction fuel as [|f IH]; intros s; [cbn [fire_due]; split; [lia|split; auto]|].
@@ -851,9 +851,66 @@ Lemma tick_unfold : forall c h now d,
    outs (fire_due c {| hs := h; dr := d; outs := [] |} now TICK_FUEL)).
 Proof. reflexivity. Qed.
 
+Lemma TICK_FUEL_S : TICK_FUEL = S 63.
+Proof. reflexivity. Qed.
+
+Lemma fire_due_progress : forall c now f s,
+  DrainInv c (hs s) -> dl_below now (hs s) ->
+  weight c (hs (fire_due c s now (S f))) <= pred (weight c (hs s)).
+Proof.
+  intros c now f s I D. rewrite fire_due_S. destruct (fire_next c s now) as [s1|] eqn:E.
+  - destruct (fire_next_facts c s now s1 E) as (_ & B2 & _ & _). specialize (B2 (proj1 I)).
+    destruct (fire_due_facts c now f s1) as (C1 & _ & _). lia.
+  - destruct (fire_next_none c s now E D) as [Hn Hc]. rewrite (unarmed_weight_zero c (hs s) I Hn Hc). lia.
+Qed.
+
 (* drain_step: a tick later than every armed deadline preserves the invariants, leaves every deadline
    below [next_bound], strictly decreases the weight unless it is zero already, and reports every
    application request it drops *)
+Lemma tick_fst : forall c h now d,
+  fst (step c h EvTick now d) = hs (fire_due c {| hs := h; dr := d; outs := [] |} now TICK_FUEL).
+Proof. reflexivity. Qed.
+Lemma tick_snd : forall c h now d,
+  snd (step c h EvTick now d) = outs (fire_due c {| hs := h; dr := d; outs := [] |} now TICK_FUEL).
+Proof. reflexivity. Qed.
+
+Lemma tick_inv : forall c h now d,
+  DrainInv c h -> fresh_draws h d -> not_exhausted c h EvTick now d -> DrainInv c (fst (step c h EvTick now d)).
+Proof.
+  intros c h now d (SY & NO & EI) F NE. split; [apply step_sync; assumption|]. rewrite tick_fst.
+  split; [apply (fire_due_no c none now TICK_FUEL {| hs := h; dr := d; outs := [] |}); exact NO
+         |apply (fire_due_inv c now TICK_FUEL {| hs := h; dr := d; outs := [] |}); exact EI].
+Qed.
+
+Lemma tick_dl : forall c h now d, dl_below now h -> dl_below (next_bound c now) (fst (step c h EvTick now d)).
+Proof.
+  intros c h now d D. rewrite tick_fst.
+  apply (proj1 (proj2 (fire_due_facts c now TICK_FUEL {| hs := h; dr := d; outs := [] |})) (next_bound c now)); [lia|].
+  apply (dl_below_mono now); [unfold next_bound; lia|exact D].
+Qed.
+
+Lemma tick_weight : forall c h now d, DrainInv c h -> dl_below now h ->
+  weight c (fst (step c h EvTick now d)) <= pred (weight c h).
+Proof.
+  intros c h now d I D. rewrite tick_fst, TICK_FUEL_S.
+  apply (fire_due_progress c now 63 {| hs := h; dr := d; outs := [] |}); assumption.
+Qed.
+
+(* (stated for an arbitrary fuel: with the constant TICK_FUEL in the statement the kernel unfolds
+   fire_due 64 levels deep when it compares the two sides) *)
+Lemma tick_eocc0 : forall c h now d x f,
+  eocc x h = eocc x (hs (fire_due c {| hs := h; dr := d; outs := [] |} now f))
+             + fmen x (outs (fire_due c {| hs := h; dr := d; outs := [] |} now f)).
+Proof.
+  intros c h now d x f.
+  pose proof (proj2 (proj2 (fire_due_facts c now f {| hs := h; dr := d; outs := [] |})) x) as A3.
+  unfold elive in A3.
+  assert (Z : forall a b, a + b = eocc x h + 0 -> eocc x h = a + b) by (intros; lia). apply Z. exact A3.
+Qed.
+Lemma tick_eocc : forall c h now d x,
+  eocc x h = eocc x (fst (step c h EvTick now d)) + fmen x (snd (step c h EvTick now d)).
+Proof. intros c h now d x. rewrite tick_fst, tick_snd. apply tick_eocc0. Qed.
+
 Theorem drain_step : forall c h now d,
   DrainInv c h -> dl_below now h -> fresh_draws h d -> not_exhausted c h EvTick now d ->
   let h' := fst (step c h EvTick now d) in
@@ -861,22 +918,9 @@ Theorem drain_step : forall c h now d,
   DrainInv c h' /\ dl_below (next_bound c now) h' /\ weight c h' <= pred (weight c h) /\
   forall x, eocc x h = eocc x h' + fmen x o.
 Proof.
-  intros c h now d (SY & NO & EI) D F NE h' o.
-  assert (I' : DrainInv c h').
-  { split; [apply step_sync; assumption|]. subst h'. rewrite tick_unfold. cbn [fst].
-    split; [apply fire_due_no; exact NO|apply fire_due_inv; exact EI]. }
-  split; [exact I'|]. subst h' o. rewrite tick_unfold. cbn [fst snd].
-  set (s0 := {| hs := h; dr := d; outs := [] |}).
-  destruct (fire_due_facts c now TICK_FUEL s0) as (A1 & A2 & A3).
-  split; [|split].
-  - apply A2. apply (dl_below_mono now); [unfold next_bound; lia|exact D].
-  - change TICK_FUEL with (S 63). rewrite fire_due_S. destruct (fire_next c s0 now) as [s1|] eqn:E.
-    + destruct (fire_next_facts c s0 now s1 E) as (_ & B2 & _ & _). specialize (B2 SY).
-      destruct (fire_due_facts c now 63 s1) as (C1 & _ & _). cbn [hs] in B2. unfold s0 in B2. cbn [hs] in B2. lia.
-    + destruct (fire_next_none c s0 now E D) as [Hn Hc]. cbn [hs] in Hn, Hc.
-      rewrite (unarmed_weight_zero c h (conj SY (conj NO EI)) Hn Hc). cbn [hs]. unfold s0. cbn [hs].
-      rewrite (unarmed_weight_zero c h (conj SY (conj NO EI)) Hn Hc). lia.
-  - intros x. specialize (A3 x). unfold elive in A3. cbn [hs outs fmen] in A3. unfold s0 in *. cbn [hs outs fmen] in A3. lia.
+  intros c h now d I D F NE. cbv zeta.
+  split; [apply tick_inv; assumption|]. split; [apply tick_dl; assumption|].
+  split; [apply tick_weight; assumption|]. intros x. apply tick_eocc.
 Qed.
 
 (* ------------------------------------------------------------------------------------------ *)
@@ -992,3 +1036,99 @@ Proof.
   - apply reachable_DrainInv; assumption.
   - pose proof (weight_le_drain_bound c h). lia.
 Qed.
+
+(* the hypothesis [dl_below B h] can always be met: every state has a bound above its deadlines *)
+Fixpoint maxd {A : Type} (l : list (A * N)) : N :=
+  match l with [] => 0%N | (_, d) :: t => N.max d (maxd t) end.
+Lemma maxd_lt : forall {A : Type} (l : list (A * N)) B, (maxd l < B)%N -> Forall (fun e => (snd e < B)%N) l.
+Proof.
+  intros A. induction l as [|[a d] t IH]; intros B H; [constructor|]. cbn [maxd] in H.
+  constructor; [cbn [snd]; lia|apply IH; lia].
+Qed.
+Definition first_safe_tick (h : hstate) : N := (N.max (maxd (nmap h)) (maxd (challenges h)) + 1)%N.
+Lemma dl_below_first_safe_tick : forall h, dl_below (first_safe_tick h) h.
+Proof. intros h. unfold first_safe_tick. split; apply maxd_lt; lia. Qed.
+
+(* ------------------------------------------------------------------------------------------ *)
+(* The hypotheses are satisfiable by a non-trivial reachable state: request 100 is active (random
+   packet, session-initiating), a challenge for the same peer is pending, request 101 is queued
+   behind it.  Tick 1 re-sends request 100 and fires the challenge, which releases request 101 -
+   it is queued again behind the session-initiating request 100; tick 2 fails request 100 and with
+   it the queue.  Both application requests get their terminal event. *)
+Local Open Scope N_scope.
+Definition ex_drain_events : list (event * N * draws) :=
+  [ (EvRequest ex_peer 100 7, 0, ex_draws2 50);
+    (EvInbound 20 (PMsg 2 (5, 5) 0 (CJunk 0)), 10, ex_draws2 60);
+    (EvWhoAreYou (2, 20) (5, 5) (Some (ex_enr 2 20)), 20, ex_draws2 70);
+    (EvRequest ex_peer 101 8, 30, ex_draws2 80) ].
+Definition ex_drain_ticks : list (event * N * draws) :=
+  [ (EvTick, 5000, ex_draws2 100); (EvTick, 10000, ex_draws2 110); (EvTick, 15000, ex_draws2 120);
+    (EvTick, 20000, ex_draws2 130); (EvTick, 25000, ex_draws2 140); (EvTick, 30000, ex_draws2 150);
+    (EvTick, 35000, ex_draws2 160) ].
+Local Close Scope N_scope.
+
+Ltac fresh_tac :=
+  vm_compute;
+  repeat match goal with
+  | |- _ /\ _ => split
+  | |- NoDup _ => constructor
+  | |- ~ _ => intro
+  | |- forall _, _ => intro
+  | H : _ \/ _ |- _ => destruct H
+  | H : False |- _ => destruct H
+  | H : In _ (_ :: _) |- _ => cbn [In] in H
+  | H : In _ [] |- _ => destruct H
+  | H : _ :: _ = [] |- _ => discriminate H
+  | |- True => exact I
+  end; try discriminate; subst; try discriminate.
+
+Example ex_drain_fresh : fresh_run (ex_cfg true) init_state ex_drain_events.
+Proof. fresh_tac. Qed.
+
+Example ex_drain_state :
+  let h := fst (run (ex_cfg true) init_state ex_drain_events) in
+  map (fun e => map rc_rid (snd e)) (active h) = [[100%N]] /\
+  map (fun e => map pq_rid (snd e)) (pending h) = [[101%N]] /\
+  map (fun e => fst (fst e)) (challenges h) = [(2%N, 20%N)] /\
+  ext_rids h = [100%N; 101%N] /\ weight (ex_cfg true) h = 6 /\ drain_bound (ex_cfg true) h = 7.
+Proof. vm_compute. repeat split. Qed.
+
+Example ex_drain_ticks_fresh :
+  fresh_run (ex_cfg true) (fst (run (ex_cfg true) init_state ex_drain_events)) ex_drain_ticks.
+Proof. fresh_tac. Qed.
+
+Example ex_drain_hypotheses :
+  let c := ex_cfg true in
+  let h := fst (run c init_state ex_drain_events) in
+  fixed_cfg c /\ fresh_run c init_state ex_drain_events /\
+  dl_below 5000 h /\ tick_schedule c 5000 ex_drain_ticks /\ fresh_run c h ex_drain_ticks /\
+  drain_bound c h <= length ex_drain_ticks.
+Proof.
+  cbv zeta. split; [exact ex_cfg_fixed|]. split; [exact ex_drain_fresh|].
+  split; [vm_compute; split; repeat constructor|].
+  split; [vm_compute; repeat split; discriminate|].
+  split; [exact ex_drain_ticks_fresh|]. vm_compute. repeat constructor.
+Qed.
+
+(* the theorem applied to it ... *)
+Example ex_drain_drains :
+  let c := ex_cfg true in
+  let h := fst (run c init_state ex_drain_events) in
+  let h' := fst (run c h ex_drain_ticks) in
+  (active h' = [] /\ pending h' = [] /\ challenges h' = [] /\ nmap h' = [] /\ expected h' = []) /\
+  In (100%N, true) (run_tagged c h ex_drain_ticks) /\ In (101%N, true) (run_tagged c h ex_drain_ticks).
+Proof.
+  cbv zeta. destruct ex_drain_hypotheses as (H1 & H2 & H3 & H4 & H5 & H6). cbv zeta in *.
+  destruct (drain (ex_cfg true) ex_drain_events ex_drain_ticks 5000%N H1 H2 H3 H4 H5 H6) as [E T].
+  cbv zeta in E, T. split; [exact E|].
+  split; apply T; rewrite (proj1 (proj2 (proj2 (proj2 ex_drain_state)))); cbn [In]; auto.
+Qed.
+
+(* ... and what the model computes: exactly one terminal event each, within the first two ticks *)
+Example ex_drain_trace :
+  let c := ex_cfg true in
+  let h := fst (run c init_state ex_drain_events) in
+  run_tagged c h ex_drain_ticks = [(100%N, true); (101%N, true)] /\
+  run_tagged c h (firstn 1 ex_drain_ticks) = [] /\
+  run_tagged c h (firstn 2 ex_drain_ticks) = [(100%N, true); (101%N, true)].
+Proof. vm_compute. repeat split. Qed.
